@@ -19,9 +19,11 @@ TYPES = {
                             ("Uint128::new(5u128)", '"5"')]),
     "Binary": ("Binary", [('Binary::from(b"hi".to_vec())', '"aGk="'), ("Binary::default()", '""')]),
     "U128": ("u128", [("18446744073709551617u128", '18446744073709551617'), ("5u128", '5')]),
+    # the type parameter of a generic program, instantiated with verif_rrt::GenVal
+    "GenT": ("GenVal", [("GenVal { g: 7 }", '{"g":7}'), ("GenVal { g: 4000000000 }", '{"g":4000000000}')]),
 }
 # a JSON value of the wrong type for each argument type
-WRONG = {"u32": '"zz"', "String": "5", "bool": '"zz"', "OptU32": '"zz"', "VecString": "5", "Nested": "5", "Uint128": "true", "Binary": "5", "U128": "true"}
+WRONG = {"u32": '"zz"', "String": "5", "bool": '"zz"', "OptU32": '"zz"', "VecString": "5", "Nested": "5", "Uint128": "true", "Binary": "5", "U128": "true", "GenT": "5"}
 
 CTX = {"exec": ("ExecCtx", "ctx_exec"), "query": ("QueryCtx", "ctx_query"), "sudo": ("SudoCtx", "ctx_sudo"),
        "instantiate": ("InstantiateCtx", "ctx_instantiate"), "migrate": ("MigrateCtx", "ctx_migrate")}
@@ -97,7 +99,9 @@ def rust_ident(n):
 def handler_src(prog, part, m, in_trait):
     """Signature (trait) or echo implementation of one handler."""
     ctx_ty, ctx_fn = CTX[m["kind"]]
-    params = "".join(", %s: %s" % (a["n"], TYPES[a["t"]][0]) for a in m["args"])
+    # the type parameter is spelled `Self::ItemT` in an interface (and its impl) and `T` in the contract
+    gen_name = "T" if part["id"] == "own" else "Self::ItemT"
+    params = "".join(", %s: %s" % (a["n"], gen_name if a["t"] == "GenT" else TYPES[a["t"]][0]) for a in m["args"])
     ret = (m.get("ret") or m.get("resp") or "QResp") if m["kind"] == "query" else "Response"       # what the handler returns
     explicit = m["kind"] == "query" and m.get("explicit")
     aliased = explicit and m.get("sig", "alias") == "alias"
@@ -121,7 +125,37 @@ def handler_src(prog, part, m, in_trait):
 
 
 def msg_path(part, kind):
+    if part.get("_generic"):      # generic programs reach their message types through the Api traits (aliases, see generic_aliases)
+        return "M%s%s" % (part["id"].capitalize(), kind.capitalize())
     return ("sv::" if part["id"] == "own" else "%s::sv::" % part["id"]) + MSG_TY[kind]
+
+
+def wrap_path(prog, kind):
+    """The contract-level message of an enum kind, or the struct message of instantiate / migrate."""
+    if prog.get("family") == "generic":
+        return ("W%s" % kind.capitalize()) if kind in ENUM_KINDS else ("MOwn%s" % kind.capitalize())
+    return "sv::" + (WRAP_TY[kind] if kind in ENUM_KINDS else MSG_TY[kind])
+
+
+def uses_gen(part):
+    return any(a["t"] == "GenT" for m in part["methods"] for a in m["args"])
+
+
+def generic_aliases(prog):
+    """Type aliases of a generic program: every message type named through ContractApi / InterfaceApi."""
+    o = ["    pub type CtrT = Ctr<GenVal>;\n"]
+    api = {"exec": "Exec", "query": "Query", "sudo": "Sudo", "instantiate": "Instantiate", "migrate": "Migrate"}
+    for p in prog["parts"]:
+        if p["id"] == "own":
+            for k, a in api.items():
+                o.append("    pub type MOwn%s = <CtrT as sylvia::types::ContractApi>::%s;\n" % (k.capitalize(), a))
+            for k in ENUM_KINDS:
+                o.append("    pub type W%s = <CtrT as sylvia::types::ContractApi>::Contract%s;\n" % (k.capitalize(), api[k]))
+        else:
+            tr = p["id"].capitalize()
+            for k in ENUM_KINDS:      # the interface's messages as the contract type instantiates them
+                o.append("    pub type M%s%s = <CtrT as %s::sv::InterfaceMessagesApi>::%s;\n" % (tr, k.capitalize(), p["id"], api[k]))
+    return "".join(o) + "\n"
 
 
 def encode_src(prog):
@@ -253,11 +287,11 @@ def builder_src(prog):
 def schema_src(prog):
     o = ["    fn schema_events() {\n        use sylvia::cw_schema::QueryResponses;\n"]
     for p in prog["parts"]:
-        pre = "sv::" if p["id"] == "own" else "%s::sv::" % p["id"]
-        o.append("        rec::schemas(\"%s\", \"%s\", <%sQueryMsg as QueryResponses>::response_schemas().map_err(|e| e.to_string()), -1);\n" % (prog["id"], p["id"], pre))
-    o.append("        let root = sylvia::cw_schema::schemars::schema_for!(sv::ContractQueryMsg);\n"
+        o.append("        rec::schemas(\"%s\", \"%s\", <%s as QueryResponses>::response_schemas().map_err(|e| e.to_string()), -1);\n" % (prog["id"], p["id"], msg_path(p, "query")))
+    w = wrap_path(prog, "query")
+    o.append("        let root = sylvia::cw_schema::schemars::schema_for!(%s);\n"
              "        let anyof = root.schema.subschemas.as_ref().and_then(|s| s.any_of.as_ref()).map(|a| a.len() as i64).unwrap_or(-1);\n"
-             "        rec::schemas(\"%s\", \"contract\", <sv::ContractQueryMsg as QueryResponses>::response_schemas().map_err(|e| e.to_string()), anyof);\n    }\n\n" % prog["id"])
+             "        rec::schemas(\"%s\", \"contract\", <%s as QueryResponses>::response_schemas().map_err(|e| e.to_string()), anyof);\n    }\n\n" % (w, prog["id"], w))
     return "".join(o)
 
 
@@ -409,39 +443,52 @@ def program_src(prog):
     ifaces = [p for p in prog["parts"] if p["id"] != "own"]
     own = [p for p in prog["parts"] if p["id"] == "own"][0]
     has = lambda k: any(m["kind"] == k for m in own["methods"])  # noqa: E731
+    generic = prog.get("family") == "generic"
+    if generic:
+        for p in prog["parts"]:
+            p["_generic"] = True
+    ctr_ty = "Ctr::<GenVal>" if generic else "Ctr"
     o = []
     o.append("#[allow(dead_code, unused_variables, unused_imports, clippy::all)]\npub mod %s {\n" % mod)
     o.append("    use sylvia::ctx::{ExecCtx, InstantiateCtx, MigrateCtx, QueryCtx, SudoCtx};\n"
              "    use sylvia::cw_std::{from_json, to_json_vec, Binary, Env, MessageInfo, Response, StdError, Uint128};\n"
              "    use verif_rrt::{rec, CallOut, ContractError, Deps, HandlerErr, Nested, ProgVt, QResp, QRespB, QResultB};\n"
-             "    use verif_rrt::{outcome_bin, outcome_resp, proj_anyhow, proj_err, serde_json};\n\n")
+             "    use verif_rrt::{outcome_bin, outcome_resp, proj_anyhow, proj_err, serde_json};\n"
+             "    use verif_rrt::GenVal;\n\n")
     for p in ifaces:
         tr = p["id"].capitalize()
         o.append("    pub mod %s {\n        use super::*;\n        use sylvia::interface;\n\n        #[interface]\n"
                  "        #[sv::custom(msg=sylvia::cw_std::Empty, query=sylvia::cw_std::Empty)]\n"
-                 "        pub trait %s {\n            type Error: From<StdError>;\n\n" % (p["id"], tr))
+                 "        pub trait %s {\n            type Error: From<StdError>;\n%s\n" % (
+                     p["id"], tr, "            type ItemT: sylvia::types::CustomMsg;\n" if generic and uses_gen(p) else ""))
         for m in p["methods"]:
             o.append("    " + handler_src(prog, p, m, True).replace("\n        ", "\n            "))
         o.append("        }\n    }\n\n")
     o.append(override_src(prog))
-    o.append("    pub struct Ctr;\n\n")
+    gen_hdr = "<T>" if generic else ""
+    gen_where = " where T: sylvia::types::CustomMsg + 'static" if generic else ""
+    o.append("    pub struct Ctr<T>(std::marker::PhantomData<T>);\n\n" if generic else "    pub struct Ctr;\n\n")
     for p in ifaces:
         tr = p["id"].capitalize()
-        o.append("    impl %s::%s for Ctr {\n        type Error = ContractError;\n" % (p["id"], tr))
+        o.append("    impl%s %s::%s for Ctr%s%s {\n        type Error = ContractError;\n%s" % (
+            gen_hdr, p["id"], tr, gen_hdr, gen_where, "        type ItemT = T;\n" if generic and uses_gen(p) else ""))
         for m in p["methods"]:
             o.append("    " + handler_src(prog, p, m, False).replace("\n    ", "\n        ").rstrip(" "))
         o.append("    }\n\n")
-    o.append("    #[sylvia::entry_points]\n    #[sylvia::contract]\n    #[sv::error(ContractError)]\n")
+    o.append("    #[sylvia::entry_points%s]\n    #[sylvia::contract]\n    #[sv::error(ContractError)]\n" % ("(generics<GenVal>)" if generic else ""))
     for p in ifaces:
         o.append("    #[sv::messages(%s as %s)]\n" % (p["id"], p["id"].capitalize()))
     for k in prog.get("overrides", []):
         o.append("    #[sv::override_entry_point(%s=ov::%s(verif_rrt::OvMsg))]\n" % (k, k))
-    o.append("    impl Ctr {\n        pub const fn new() -> Self {\n            Ctr\n        }\n")
+    o.append("    impl%s Ctr%s%s {\n        pub const fn new() -> Self {\n            %s\n        }\n" % (
+        gen_hdr, gen_hdr, gen_where, "Ctr(std::marker::PhantomData)" if generic else "Ctr"))
     for m in own["methods"]:
         o.append("        #[sv::msg(%s%s)]\n" % (m["kind"], (", resp=%s" % m["resp"]) if (m["kind"] == "query" and m.get("explicit")) else ""))
         o.append("    " + handler_src(prog, own, m, False).replace("\n    ", "\n        ").rstrip(" "))
     o.append("    }\n\n")
 
+    if generic:
+        o.append(generic_aliases(prog))
     # --- vtable: the generic driver's access to the generated types
     o.append("    fn lists() -> Vec<(&'static str, &'static str, Vec<String>)> {\n        vec![\n")
     for p in prog["parts"]:
@@ -451,9 +498,9 @@ def program_src(prog):
     o.append("        ]\n    }\n\n")
     o.append("    fn decode_wrapper(kind: &str, doc: &[u8]) -> Option<verif_rrt::DecodeRes> {\n        match kind {\n")
     for k in ENUM_KINDS:
-        arms = "".join("sv::%s::%s(_) => \"%s\", " % (WRAP_TY[k], variant_of_part(p), p["id"]) for p in prog["parts"])
-        o.append("            \"%s\" => Some(from_json::<sv::%s>(doc).map(|m| {{ let p = match &m {{ %s}}; (p, to_json_vec(&m).unwrap()) }}).map_err(|e| e.to_string())),\n"
-                 .replace("{{", "{").replace("}}", "}") % (k, WRAP_TY[k], arms))
+        arms = "".join("%s::%s(_) => \"%s\", " % (wrap_path(prog, k), variant_of_part(p), p["id"]) for p in prog["parts"])
+        o.append("            \"%s\" => Some(from_json::<%s>(doc).map(|m| {{ let p = match &m {{ %s}}; (p, to_json_vec(&m).unwrap()) }}).map_err(|e| e.to_string())),\n"
+                 .replace("{{", "{").replace("}}", "}") % (k, wrap_path(prog, k), arms))
     o.append("            _ => None,\n        }\n    }\n\n")
     o.append("    fn decode_part(part: &str, kind: &str, doc: &[u8]) -> Option<Result<Vec<u8>, String>> {\n        match (part, kind) {\n")
     for p in prog["parts"]:
@@ -463,14 +510,14 @@ def program_src(prog):
     o.append("    fn decode_struct(kind: &str, doc: &[u8]) -> Option<Result<Vec<u8>, String>> {\n        match kind {\n")
     for k in ("instantiate", "migrate"):
         if has(k):
-            o.append("            \"%s\" => Some(from_json::<sv::%s>(doc).map(|m| to_json_vec(&m).unwrap()).map_err(|e| e.to_string())),\n" % (k, MSG_TY[k]))
+            o.append("            \"%s\" => Some(from_json::<%s>(doc).map(|m| to_json_vec(&m).unwrap()).map_err(|e| e.to_string())),\n" % (k, wrap_path(prog, k)))
     o.append("            _ => None,\n        }\n    }\n\n")
     eps = set(prog["entry_points"])
     o.append("    fn call_ep(kind: &str, deps: &mut Deps, env: Env, info: MessageInfo, doc: &[u8]) -> CallOut {\n        match kind {\n")
     for k in ("instantiate", "exec", "query", "sudo", "migrate"):
         if EP_FN[k] not in eps:
             continue
-        ty = "sv::" + (WRAP_TY[k] if k in ENUM_KINDS else MSG_TY[k])
+        ty = wrap_path(prog, k)
         if k == "query":
             call = "outcome_bin(entry_points::query(deps.as_ref(), env, m).map_err(|e| proj_err(&e)))"
         elif k in ("exec", "instantiate"):
@@ -481,7 +528,7 @@ def program_src(prog):
                  "                Ok(m) => { let (v, b) = %s; CallOut::Done(v, b) }\n            },\n" % (k, ty, call))
     o.append("            _ => CallOut::Absent,\n        }\n    }\n\n")
     o.append("    fn call_mt(kind: &str, deps: &mut Deps, env: Env, info: MessageInfo, doc: &[u8]) -> CallOut {\n"
-             "        type MtC = dyn sylvia::cw_multi_test::Contract<sylvia::cw_std::Empty, sylvia::cw_std::Empty>;\n        let c = Ctr::new();\n        match kind {\n")
+             "        type MtC = dyn sylvia::cw_multi_test::Contract<sylvia::cw_std::Empty, sylvia::cw_std::Empty>;\n        let c = %s::new();\n        match kind {\n" % ctr_ty)
     for k in ("instantiate", "exec", "query", "sudo", "migrate"):
         if k == "query":
             call = "outcome_bin(MtC::query(&c, deps.as_ref(), env, doc.to_vec()).map_err(|e| proj_anyhow(&e)))"
@@ -492,7 +539,8 @@ def program_src(prog):
         o.append("            \"%s\" => { let (v, b) = %s; CallOut::Done(v, b) }\n" % (k, call))
     o.append("            _ => CallOut::Absent,\n        }\n    }\n\n")
     o.append("    fn encode_events() {\n" + encode_src(prog) + "    }\n\n")
-    o.append(remote_src(prog))
+    if not generic:
+        o.append(remote_src(prog))
     o.append(schema_src(prog))
     if prog.get("builder"):
         o.append(builder_src(prog))
@@ -500,7 +548,7 @@ def program_src(prog):
     if with_mt:
         o.append(mt_src(prog))
     parts = ", ".join('"%s"' % p["id"] for p in prog["parts"])
-    o.append("    pub fn vt() -> ProgVt {\n        ProgVt { id: \"%s\", lists, decode_wrapper, decode_part, decode_struct, call_ep, call_mt, encode_events, schema_events: Some(schema_events), parts: &[%s], remote_events: %s, mt_histories: %s, builder_events: %s }\n    }\n" % (pid, parts, "None" if prog.get("overrides") else "Some(remote_events)", "Some(mt_histories)" if with_mt else "None", "Some(builder_events)" if prog.get("builder") else "None"))
+    o.append("    pub fn vt() -> ProgVt {\n        ProgVt { id: \"%s\", lists, decode_wrapper, decode_part, decode_struct, call_ep, call_mt, encode_events, schema_events: Some(schema_events), parts: &[%s], remote_events: %s, mt_histories: %s, builder_events: %s }\n    }\n" % (pid, parts, "None" if (prog.get("overrides") or generic) else "Some(remote_events)", "Some(mt_histories)" if with_mt else "None", "Some(builder_events)" if prog.get("builder") else "None"))
     o.append("}\n")
     return "".join(o)
 
